@@ -827,3 +827,136 @@ def inner_counters_reset(ctx, rule, prefixes, floor, why):
                                     % (c, U(inner.test)[:40], U(inits[0])[:40]), why, None, inits[0], firm=True)
     if ctx.floor(rule, prefixes[0], n, floor, 'counter-driven nested while loops in %s' % ', '.join(prefixes)) and not bad:
         ctx.ok(rule, prefixes[0], 'every counter of a nested while loop is (re)initialised inside the enclosing loop (%d loops)' % n)
+
+
+def _returns_none_and_value(fn):
+    """(nodes that return None explicitly, nodes that return something else) of fn itself."""
+    nones, vals = [], []
+    for r in walk_local(fn):
+        if isinstance(r, ast.Return):
+            if r.value is None or (isinstance(r.value, ast.Constant) and r.value.value is None):
+                nones.append(r)
+            else:
+                vals.append(r)
+    return nones, vals
+
+
+def _guarded_not_none(mod, fn, use, v):
+    """Is the expression node `use` (a use of local v that needs a non-None object) evaluated only when v is known to be truthy /
+    not None?  Looks at the enclosing IfExp / `and` chain, then at the path conditions of the enclosing statement."""
+    def says_present(test, pol):
+        t = test
+        while isinstance(t, ast.UnaryOp) and isinstance(t.op, ast.Not):
+            t, pol = t.operand, not pol
+        if isinstance(t, ast.Name) and t.id == v:
+            return pol
+        if isinstance(t, ast.Compare) and len(t.ops) == 1 and isinstance(t.left, ast.Name) and t.left.id == v \
+                and isinstance(t.comparators[0], ast.Constant) and t.comparators[0].value is None:
+            return (isinstance(t.ops[0], ast.IsNot) and pol) or (isinstance(t.ops[0], ast.Is) and not pol) \
+                or (isinstance(t.ops[0], ast.NotEq) and pol) or (isinstance(t.ops[0], ast.Eq) and not pol)
+        if isinstance(t, ast.BoolOp) and isinstance(t.op, ast.And) and pol:
+            return any(says_present(x, True) for x in t.values)
+        if isinstance(t, ast.BoolOp) and isinstance(t.op, ast.Or) and not pol:
+            return any(says_present(x, False) for x in t.values)
+        return False
+    cur = use
+    while True:
+        par = mod.parents.get(id(cur))
+        if par is None or isinstance(par, ast.stmt):
+            break
+        if isinstance(par, ast.IfExp):
+            if cur is par.body and says_present(par.test, True):
+                return True
+            if cur is par.orelse and says_present(par.test, False):
+                return True
+        if isinstance(par, ast.BoolOp) and isinstance(par.op, ast.And):
+            i = next(k for k, x in enumerate(par.values) if x is cur)
+            if any(says_present(x, True) for x in par.values[:i]):
+                return True
+        cur = par
+    stmt = par if par is not None else None
+    if stmt is None:
+        return False
+    if isinstance(stmt, (ast.If, ast.While)) and any(x is use for x in ast.walk(stmt.test)):
+        pass
+    return any(says_present(t, p) for t, p in path_conditions(mod, stmt))
+
+
+def optional_results_checked(ctx, rule, prefixes, floor, why):
+    """A helper that can `return None` next to a real result hands its callers an OPTIONAL value: every caller that binds the result
+    to a local and then iterates over it, subscripts it, calls a method on it or tests membership in it must do so only where the
+    value is known to be present (`if v:`, `v is not None`, `x if v else y`, `v and ...`, or an earlier `if not v: continue`).  A use
+    without that raises TypeError for exactly the inputs that take the None path (seed C05-fa: find_keyboard_row_column returns
+    None for blanks; detect_keyboard_walk guards `.copy()` but still runs `for board in pos_list` and `key in pos_list`: parse()
+    raises for every password with a space)."""
+    n = 0
+    bad = False
+    optional = {}
+    for rel, m in sorted(ctx.repo.modules.items()):
+        if not rel.startswith(tuple(prefixes)):
+            continue
+        for lname, fn in m.funcs.items():
+            if '.' in lname:
+                continue
+            nones, vals = _returns_none_and_value(fn)
+            if nones and vals:
+                optional[lname] = (rel, fn)
+    for rel, m in sorted(ctx.repo.modules.items()):
+        if not rel.startswith(tuple(prefixes)):
+            continue
+        for lname, fn in m.funcs.items():
+            for st in walk_local(fn):
+                if not (isinstance(st, ast.Assign) and len(st.targets) == 1 and isinstance(st.targets[0], ast.Name)
+                        and isinstance(st.value, ast.Call) and (call_name(st.value) or '').rpartition('.')[2] in optional):
+                    continue
+                v = st.targets[0].id
+                callee = (call_name(st.value) or '').rpartition('.')[2]
+                n += 1
+                q = '%s::%s' % (rel, lname)
+                ctx.stats['functions'].add(q)
+                for x in walk_local(fn):
+                    use = None
+                    if isinstance(x, (ast.For, ast.comprehension)) and isinstance(x.iter, ast.Name) and x.iter.id == v:
+                        use = x.iter
+                    elif isinstance(x, ast.Compare) and any(isinstance(o, (ast.In, ast.NotIn)) and isinstance(c, ast.Name) and c.id == v
+                                                            for o, c in zip(x.ops, x.comparators)):
+                        use = x
+                    elif isinstance(x, ast.Subscript) and isinstance(x.value, ast.Name) and x.value.id == v:
+                        use = x
+                    elif isinstance(x, ast.Attribute) and isinstance(x.value, ast.Name) and x.value.id == v:
+                        use = x
+                    elif isinstance(x, ast.Call) and call_name(x) in ('len', 'iter', 'sorted', 'list', 'set', 'tuple', 'enumerate') and x.args \
+                            and isinstance(x.args[0], ast.Name) and x.args[0].id == v:
+                        use = x
+                    if use is None:
+                        continue
+                    tgt = use
+                    if isinstance(x, ast.For):
+                        # the iterable of a for statement: conditions of the statement itself
+                        if any(_says(t, p, v) for t, p in path_conditions(m, x)):
+                            continue
+                    elif _guarded_not_none(m, fn, tgt, v):
+                        continue
+                    bad = True
+                    ctx.bad(rule, q, '%s = %s(..) may be None (%s has a `return None` path) and is used unguarded: %s'
+                            % (v, callee, callee, U(x if not isinstance(x, ast.For) else x.iter)[:50]), why, None,
+                            x if hasattr(x, 'lineno') else st, firm=True)
+    if ctx.floor(rule, prefixes[0], n + len(optional) + 1, floor, 'bound results of helpers (optional helpers: %s)' % sorted(optional)) and not bad:
+        ctx.ok(rule, prefixes[0], 'every local bound to the result of a helper that can return None (%s) is used only where it is '
+               'known to be present (%d call sites)' % (sorted(optional) or 'none on this tree', n))
+
+
+def _says(test, pol, v):
+    t = test
+    while isinstance(t, ast.UnaryOp) and isinstance(t.op, ast.Not):
+        t, pol = t.operand, not pol
+    if isinstance(t, ast.Name) and t.id == v:
+        return pol
+    if isinstance(t, ast.Compare) and len(t.ops) == 1 and isinstance(t.left, ast.Name) and t.left.id == v \
+            and isinstance(t.comparators[0], ast.Constant) and t.comparators[0].value is None:
+        return (isinstance(t.ops[0], (ast.IsNot, ast.NotEq)) and pol) or (isinstance(t.ops[0], (ast.Is, ast.Eq)) and not pol)
+    if isinstance(t, ast.BoolOp) and isinstance(t.op, ast.And) and pol:
+        return any(_says(x, True, v) for x in t.values)
+    if isinstance(t, ast.BoolOp) and isinstance(t.op, ast.Or) and not pol:
+        return any(_says(x, False, v) for x in t.values)
+    return False
